@@ -147,6 +147,16 @@ def _ti_image_platform(ti, value):
     ti.images.images[value] = {"kernel": "images/vmlinuz"}
 
 
+def _ti_image_platform_legacy_spelling(ti, value):
+    # an unlisted platform whose NAME looks like the legacy section spelling '<listed platform>-<tree arch>'
+    arch = ti.tree.arch
+    listed = sorted(ti.tree.platforms) or [arch]
+    key = "%s-%s" % (listed[-1] if value == "last" else listed[0], arch)
+    while key in ti.tree.platforms:
+        key += "-" + arch
+    ti.images.images[key] = {"kernel": "images/vmlinuz"}
+
+
 def _ti_lone_media_number(ti, value):
     field, v = value
     ti.media.discnum = ti.media.totaldiscs = None
@@ -269,6 +279,8 @@ SLOTS += [
          apply=_ti_image_abs, backs=["treeinfo.Images._validate_image_paths"]),
     Slot("treeinfo", "images.platform-not-listed", lambda ti: [ti], ["sparc64x", "nowhere"], apply=_ti_image_platform,
          backs=["treeinfo.Images._validate_platforms"]),
+    Slot("treeinfo", "images.platform-not-listed-named-like-a-legacy-section", lambda ti: [ti], ["first", "last"],
+         apply=_ti_image_platform_legacy_spelling, backs=["treeinfo.Images._validate_platforms"]),
     Slot("treeinfo", "media.lone-number-not-an-integer", lambda ti: [ti],
          [("discnum", "1"), ("totaldiscs", "2"), ("discnum", 1.5), ("totaldiscs", [1]), ("discnum", (1,)), ("totaldiscs", b"1")],
          apply=_ti_lone_media_number, backs=["treeinfo.Media._validate_discnum", "treeinfo.Media._validate_totaldiscs"]),
